@@ -33,7 +33,7 @@ def r1(ctx, prog):
         if d is None or rhs is None or not rl.is_call(f, f.strip(rhs), ("_mi_align_up", "_mi_align_down")):
             continue
         cal = f.nodes[f.strip(rhs)]["callee"]
-        is_start = not any(f.nodes[x]["k"] == "BinaryOperator" and f.nodes[x]["op"] == "+" for x in f.walk(f.nodes[f.strip(rhs)]["args"][0]))  # start rounds pstart, end rounds pstart+size
+        is_start = "+" not in rl.canon(f, f.nodes[f.strip(rhs)]["args"][0], expand=True)  # start rounds pstart, end rounds pstart+size (temporaries expanded)
         on_cons = cfg.guarded(cfg.pt(a), lambda e, pol: isinstance(e, int) and pol and rl.var_of(f, e) == cons) is None
         on_lib = cfg.guarded(cfg.pt(a), lambda e, pol: isinstance(e, int) and (not pol) and rl.var_of(f, e) == cons) is None
         want = ("_mi_align_up" if is_start else "_mi_align_down") if on_cons else ("_mi_align_down" if is_start else "_mi_align_up") if on_lib else None
@@ -50,7 +50,7 @@ def r1(ctx, prog):
         if rl.var_of(g, nn["cond"]) != cons:
             continue
         t, e = g.strip(nn["then"]), g.strip(nn["else"])
-        is_start = not any(g.nodes[x]["k"] == "BinaryOperator" and g.nodes[x]["op"] == "+" for x in g.walk(t))
+        is_start = "+" not in rl.canon(g, t, expand=True)
         tc, ec = g.nodes[t].get("callee"), g.nodes[e].get("callee")
         want = ("mi_align_up_ptr", "mi_align_down_ptr") if is_start else ("mi_align_down_ptr", "mi_align_up_ptr")
         ctx.check(R, (tc, ec) == want, g.where(j), "OS page alignment of %s: conservative ? %s : %s" % ("start" if is_start else "end", tc, ec), key="C13.R1:os:%s" % ("start" if is_start else "end"))
@@ -93,8 +93,8 @@ def r2(ctx, prog):
     for r in g.all(kind="ReturnStmt"):
         if g.cv(g.nodes[r].get("val", -1)) == 1 and clears:
             # success returns after the mask was computed pass the clear (the early `empty mask` return excepted)
-            w = rl.precedes(g, lambda e: e in clears, r, edge_ok=lambda lab, p, q: not any(isinstance(e, int) and pol and (rl.is_call(g, g.strip(e), "mi_commit_mask_is_empty") or
-                                                                                                                       (rl.norm_cmp(g, e, pol) and g.cv(rl.norm_cmp(g, e, pol)[2]) == 0 and rl.norm_cmp(g, e, pol)[0] == "==")) for e, pol in g.cfg.facts(lab)))
+            w = rl.precedes(g, lambda e: e in clears, r, edge_ok=lambda lab, p, q: not any(isinstance(e, int) and ((pol and rl.is_call(g, g.strip(e), "mi_commit_mask_is_empty")) or
+                                                                                                                rl.establishes(g, e, pol, "==", lambda j: True, rl.is_const(g, lambda v: v == 0))) for e, pol in g.cfg.facts(lab)))
             ctx.check(R, w is None, g.where(r), "every successful commit path clears the committed range from purge_mask (a later purge must not decommit memory that is in use again)", key="C13.R2:clear:path", witness=w)
     h = prog.fn("mi_segment_purge")
     for c in h.calls(("_mi_os_purge", "_mi_os_purge_ex")):
@@ -111,9 +111,9 @@ def r2(ctx, prog):
     k = prog.fn("mi_segment_span_free")
     for c in k.calls("mi_segment_schedule_purge"):
         a1, a2 = rl.arg(k, c, 1), rl.arg(k, c, 2)
-        ok = rl.is_call(k, k.strip(a1), "mi_slice_start") and rl.canon(k, a2).replace(" ", "") in ("($2*65536)", "(65536*$2)")
+        ok = rl.is_call(k, k.strip(a1), "mi_slice_start") and rl.canon(k, a2, expand=True).replace(" ", "") in ("($2*65536)", "(65536*$2)")
         # slice_count is re-assigned (0 -> 1) before; accept the local/param itself times the slice size
-        ok = ok or (rl.is_call(k, k.strip(a1), "mi_slice_start") and any(k.cv(x) == prog.const("MI_SEGMENT_SLICE_SIZE") for x in k.walk(a2)) and k.mentions_decl(a2, k.param_id(2)))
+        ok = ok or (rl.is_call(k, k.strip(a1), "mi_slice_start") and rl.canon(k, a2, expand=True).replace(" ", "") in ("($2*%d)" % prog.const("MI_SEGMENT_SLICE_SIZE"), "(%d*$2)" % prog.const("MI_SEGMENT_SLICE_SIZE")))
         ctx.check(R, ok, k.where(c), "a freed span schedules exactly [slice_start, slice_count*SLICE_SIZE)", key="C13.R2:span")
     ctx.floor(R, 6)
 
